@@ -170,9 +170,7 @@ PLUMBING = (
 )
 # (not: Counter, groupby, accumulate, takewhile ... — those compute or select values; a term that differs through them differs)
 PLUMBING_PREFIXES = ("operator.",)
-# alternative read-only views of one graph (networkx / rustworkx): the same adjacency asked for in another way.  A
-# comparison that fails while the code asks through a view the reference does not use is not decided either way.
-GRAPH_VIEWS = frozenset({"successors", "predecessors", "out_edges", "in_edges", "in_degree", "out_degree", "neighbors", "adj", "succ", "pred", "degree", "successor_indices", "predecessor_indices", "out_edge_indices", "in_edge_indices"})
+
 
 
 def _plumbing_names(things):
@@ -190,8 +188,6 @@ def _plumbing_names(things):
             if a[0] in ("call", "mcall") and len(a) > 1 and isinstance(a[1], str):
                 if a[0] == "call":
                     look(a[1])
-                elif a[1] in GRAPH_VIEWS:
-                    out.add("." + a[1] + "()")
             elif a[0] == "g" and len(a) > 1 and isinstance(a[1], str):
                 look(a[1])
 
@@ -200,8 +196,7 @@ def _plumbing_names(things):
             if hasattr(t, "args") and hasattr(t, "name"):
                 if not t.name.startswith("."):
                     look(t.name)
-                elif t.name[1:] in GRAPH_VIEWS:
-                    out.add(t.name + "()")
+
                 for a in list(t.args) + list(t.kwargs.values()) + ([t.recv] if t.recv is not None else []):
                     scan(a)
             else:
